@@ -185,14 +185,15 @@ func runC13(c *Ctx) {
 		return
 	}
 	c.Saw(serve)
+	w.Focus(serve)
 	req := "call<" + RepoMod + "/agent/yubiagent.read>(p1)#0"
-	for _, cv := range invokeOf(serve, "ReadSlot") {
+	for _, cv := range w.invokeOfDeep(serve, "ReadSlot") {
 		c.Check(w.Expr(cv.Call.Args[0]) == "conv<string>("+req+")[const(1):]" || w.Expr(cv.Call.Args[0]) == "conv<string>("+req+"[const(1):])", "R2.passthrough", "server.ReadSlot arm|slot is the request body", w.Pos(cv.Pos()), "string(req)[1:]", "the slot name handed to the agent is not the request body: "+w.Short(cv.Call.Args[0]))
 	}
-	for _, cv := range invokeOf(serve, "AttestSlot") {
+	for _, cv := range w.invokeOfDeep(serve, "AttestSlot") {
 		c.Check(w.Expr(cv.Call.Args[0]) == "conv<string>("+req+")[const(1):]" || w.Expr(cv.Call.Args[0]) == "conv<string>("+req+"[const(1):])", "R2.passthrough", "server.AttestSlot arm|slot is the request body", w.Pos(cv.Pos()), "string(req)[1:]", "the slot name handed to the agent is not the request body: "+w.Short(cv.Call.Args[0]))
 	}
-	for _, cv := range invokeOf(serve, "AddHardCert") {
+	for _, cv := range w.invokeOfDeep(serve, "AddHardCert") {
 		// key: phi of ParsePublicKey(req[1:]) and ParsePublicKey(msg.KeyBlob); comment: "" or msg.Comment
 		okKey := true
 		for _, lf := range w.Leaves(cv.Call.Args[0], cv) {
@@ -216,7 +217,7 @@ func runC13(c *Ctx) {
 		f := w.Facts(serve)
 		var legacy *ssa.Call
 		var newfmt *ssa.Call
-		for _, call := range callsIn(serve) {
+		for _, call := range w.callsInDeep(serve) {
 			cv, ok := call.(*ssa.Call)
 			if !ok {
 				continue
@@ -260,29 +261,51 @@ func runC13(c *Ctx) {
 		}
 	}
 	// encoded results: for each response struct alloc in ServeAgent, the field stores
-	for _, b := range serve.Blocks {
+	var serveBlocks []*ssa.BasicBlock
+	for _, tf := range w.Tree(serve) {
+		if tf == serve || w.transparent(tf) {
+			serveBlocks = append(serveBlocks, tf.Blocks...)
+		}
+	}
+	w.Focus(serve)
+	for _, b := range serveBlocks {
 		for _, ins := range b.Instrs {
 			a, ok := ins.(*ssa.Alloc)
 			if !ok {
 				continue
 			}
 			tn := a.Type().(*types.Pointer).Elem().String()
+			// a variable that only receives a whole response built elsewhere (msg := newResp(...)) is examined where it is built
+			if stores, _ := cellStores(a); len(stores) > 0 && len(w.FieldStoresDeep(serve, a)) == 0 {
+				copyOnly := true
+				for _, st := range stores {
+					src := w.canon(serve, st.Val)
+					if ld, isLd := src.(*ssa.UnOp); !isLd || ld.Op != token.MUL {
+						copyOnly = false
+					} else if _, isAl := ld.X.(*ssa.Alloc); !isAl {
+						copyOnly = false
+					}
+				}
+				if copyOnly {
+					continue
+				}
+			}
 			switch {
 			case strings.HasSuffix(tn, "agentListSlotsResp"):
-				fs := FieldStores(serve, a)
+				fs := w.FieldStoresDeep(serve, a)
 				ok1 := len(fs["Slots"]) == 1 && strings.HasSuffix(w.Expr(fs["Slots"][0]), "YubiAgent).ListSlots>(p0)#0")
 				c.Check(ok1, "R2.passthrough", "server.ListSlots arm|reply carries the agent's slots", w.Pos(a.Pos()), "msg.Slots = agent.ListSlots()", "the reply's Slots are not the agent's result")
-				ok2 := len(fs["Err"]) >= 1 && strings.Contains(w.Expr(fs["Err"][0]), "error).Error>(")
+				ok2 := len(fs["Err"]) >= 1 && someLeaf(w, a, fs["Err"][0], func(ex string) bool { return strings.Contains(ex, "error).Error>(") })
 				c.Check(ok2, "R2.passthrough", "server.ListSlots arm|reply carries the error text", w.Pos(a.Pos()), "msg.Err = err.Error()", "an error of the agent is not reported in the reply")
 			case strings.HasSuffix(tn, "agentReadSlotResp"), strings.HasSuffix(tn, "agentAttestSlotResp"):
-				fs := FieldStores(serve, a)
+				fs := w.FieldStoresDeep(serve, a)
 				arm := "ReadSlot"
 				if strings.HasSuffix(tn, "agentAttestSlotResp") {
 					arm = "AttestSlot"
 				}
-				ok1 := len(fs["Cert"]) == 1 && strings.Contains(w.Expr(fs["Cert"][0]), "encoding/pem.EncodeToMemory")
+				ok1 := len(fs["Cert"]) == 1 && someLeaf(w, a, fs["Cert"][0], func(ex string) bool { return strings.Contains(ex, "encoding/pem.EncodeToMemory") })
 				c.Check(ok1, "R2.passthrough", "server."+arm+" arm|reply carries the PEM of the agent's certificate", w.Pos(a.Pos()), "msg.Cert = pem(cert.Raw)", "the reply's Cert is not the PEM encoding of the agent's certificate")
-				ok2 := len(fs["Err"]) >= 1 && strings.Contains(w.Expr(fs["Err"][0]), "error).Error>(")
+				ok2 := len(fs["Err"]) >= 1 && someLeaf(w, a, fs["Err"][0], func(ex string) bool { return strings.Contains(ex, "error).Error>(") })
 				c.Check(ok2, "R2.passthrough", "server."+arm+" arm|reply carries the error text", w.Pos(a.Pos()), "msg.Err = err.Error()", "an error of the agent is not reported in the reply")
 			}
 		}
@@ -456,50 +479,102 @@ func runC13(c *Ctx) {
 	}
 }
 
+// someLeaf: among the values that may reach v (helper results expanded), one has an expression satisfying pred and
+// every other one is a zero value (nil / empty string).
+func someLeaf(w *World, at ssa.Instruction, v ssa.Value, pred func(string) bool) bool {
+	if ins, ok := v.(ssa.Instruction); ok && ins.Block() != nil {
+		at = ins
+	}
+	found := false
+	for _, lf := range w.Leaves(v, at) {
+		ex := w.Expr(lf.Val)
+		switch {
+		case pred(ex):
+			found = true
+		case isNilConst(strip(lf.Val)) || ex == `const("")`:
+		default:
+			return false
+		}
+	}
+	return found
+}
+
 // checkStringReply: `if string(resp) != "SUCCESS" { return errors.New(string(resp)) }; return nil`
 func checkStringReply(c *Ctx, fn *ssa.Function, name string) {
 	w := c.w
 	f := w.Facts(fn)
+	// differsLit: the literal states "the reply is not the success text" - string(resp) != "SUCCESS" or
+	// !bytes.Equal(resp, []byte("SUCCESS")), in the method or in a helper it calls
+	isSuccessConst := func(v ssa.Value) bool {
+		v = w.canon(fn, v)
+		if cv, ok := v.(*ssa.Convert); ok {
+			v = w.canon(fn, cv.X)
+		}
+		k, isK := strConst(v)
+		return isK && k == "SUCCESS"
+	}
+	differsLit := func(l Lit) bool {
+		switch x := l.V.(type) {
+		case *ssa.BinOp:
+			if !isSuccessConst(x.Y) && !isSuccessConst(x.X) {
+				return false
+			}
+			return (x.Op == token.NEQ && l.Pol) || (x.Op == token.EQL && !l.Pol)
+		case *ssa.Call:
+			if calleeName(x) == "bytes.Equal" && len(x.Call.Args) == 2 && (isSuccessConst(x.Call.Args[0]) || isSuccessConst(x.Call.Args[1])) {
+				return !l.Pol
+			}
+		}
+		return false
+	}
+	differsIn := func(facts map[Lit]bool) bool {
+		for l := range facts {
+			if differsLit(l) {
+				return true
+			}
+		}
+		return false
+	}
 	n := 0
 	for _, r := range liveReturns(fn) {
-		differs := f.Any(r.Block(), func(l Lit) bool {
-			bin, ok := l.V.(*ssa.BinOp)
-			if !ok {
-				return false
+		at := f.At(r.Block())
+		for _, lf := range w.LeavesErr(r.Results[len(r.Results)-1], r) {
+			all := copyFacts(lf.Facts)
+			for l := range at {
+				all[l] = true
 			}
-			k, isK := strConst(bin.Y)
-			if !isK || k != "SUCCESS" {
-				return false
+			if !differsIn(all) {
+				continue
 			}
-			return (bin.Op == token.NEQ && l.Pol) || (bin.Op == token.EQL && !l.Pol)
-		})
-		if !differs {
-			continue
+			n++
+			c.Check(w.NonNil(lf.Val, all), "R2.passthrough", name+"|failure text becomes an error", w.Pos(r.Pos()), "errors.New(string(resp))", "a reply other than SUCCESS does not produce an error")
 		}
-		n++
-		ok := true
-		for _, lf := range w.Leaves(r.Results[len(r.Results)-1], r) {
-			if !w.NonNil(lf.Val, lf.Facts) {
-				ok = false
-			}
-		}
-		c.Check(ok, "R2.passthrough", name+"|failure text becomes an error", w.Pos(r.Pos()), "errors.New(string(resp))", "a reply other than SUCCESS does not produce an error")
 	}
 	c.Floor("R2.passthrough", n, 1, "failure return of "+name)
-	differsAt := func(b *ssa.BasicBlock) bool {
-		return f.Any(b, func(l Lit) bool {
-			bin, ok := l.V.(*ssa.BinOp)
-			if !ok {
-				return false
-			}
-			k, isK := strConst(bin.Y)
-			return isK && k == "SUCCESS" && ((bin.Op == token.NEQ && l.Pol) || (bin.Op == token.EQL && !l.Pol))
-		})
-	}
+	differsAt := func(b *ssa.BasicBlock) bool { return differsIn(f.Primary(b)) }
 	okEnd := true
-	for _, b := range fn.Blocks {
-		if differsAt(b) && !leadsOnlyToReturns(b, differsAt) {
-			okEnd = false
+	for _, tf := range w.Tree(fn) {
+		if tf != fn && !w.transparent(tf) {
+			continue
+		}
+		for _, b := range tf.Blocks {
+			if differsAt(b) && !leadsOnlyToReturns(b, differsAt) {
+				dbgf("%s: differs block %d of %s does not lead only to returns", name, b.Index, tf.Name())
+				okEnd = false
+			}
+		}
+		if tf != fn && okEnd {
+			// the helper's failure must end the method too
+			hasDiff := false
+			for _, b := range tf.Blocks {
+				if differsAt(b) {
+					hasDiff = true
+				}
+			}
+			if hasDiff && !w.failurePropagates(fn, tf) {
+				dbgf("%s: helper %s has differs blocks and does not propagate", name, tf.Name())
+				okEnd = false
+			}
 		}
 	}
 	c.Check(okEnd, "R2.passthrough", name+"|every non-SUCCESS reply fails", w.FnPos(fn), "the != SUCCESS edge reaches only error returns", "some replies other than SUCCESS are treated as success")
